@@ -234,6 +234,7 @@ func main() {
 		annotate(&fhs[i])
 	}
 
+	installHookDispatcher()
 	outs := make([]caseOut, len(hs))
 	var wg sync.WaitGroup
 	sem := make(chan struct{}, 14)
